@@ -13,6 +13,7 @@
 From SF Require Import Base.Prelude Gen.Generated Unsized.Types Unsized.Parse Unsized.Machine Unsized.Ops.
 From SF Require Import Unsized.Proofs.EncodeParse Unsized.Proofs.Mem Unsized.Proofs.Notify Unsized.Proofs.Flat.
 From SF Require Import Unsized.Proofs.Layout Unsized.Proofs.Path Unsized.Proofs.Resize Unsized.Proofs.History Unsized.Proofs.History2.
+From SF Require Import Unsized.Proofs.History3 Unsized.Proofs.Enums.
 
 (* the full operation set: no Fault, no Panic, pointer assertions hold *)
 Theorem C03_all_ops_no_fault_in_any_history :
@@ -22,6 +23,18 @@ Theorem C03_all_ops_no_fault_in_any_history :
 Proof.
   intros ovf t h v s top pi0 v' R Hn Ho.
   destruct (xrun_refines ovf t h v s top pi0 v' R Hn Ho) as (s' & top' & pi' & Hrun & R' & Hc).
+  exists s', top'. split; [exact Hrun|]. split; [exact (repf_top_check _ _ _ _ _ R')|].
+  pose proof (repf_cap _ _ _ _ _ R'). destruct R' as [_ _ _ _ Hl _ _]. split; [lia|exact Hc].
+Qed.
+
+(* the same for every operation the theory knows (keyed views, whole-value replacement, variant switches included) *)
+Theorem C03_no_fault_in_any_full_history :
+  forall ovf t h v s top pi0 v' obss,
+    RepF pi0 t v s top -> m_refuse s <> 1 -> orunZ (m_cap s) t v h = Some (v', obss) ->
+    exists s' top', mrunZ ovf t s top h = Ok (s', top', obss) /\ top_check s' top' = true /\ m_len s' <= m_cap s' /\ m_cap s' = m_cap s.
+Proof.
+  intros ovf t h v s top pi0 v' obss R Hn Ho.
+  destruct (zrun_refines ovf t h v s top pi0 v' obss R Hn Ho) as (s' & top' & pi' & Hrun & R' & Hc).
   exists s', top'. split; [exact Hrun|]. split; [exact (repf_top_check _ _ _ _ _ R')|].
   pose proof (repf_cap _ _ _ _ _ R'). destruct R' as [_ _ _ _ Hl _ _]. split; [lia|exact Hc].
 Qed.
